@@ -8,7 +8,7 @@ import concurrent.futures as cf
 
 CHILD = os.path.join(runner.ROOT, "engine/pure/wrapper_child.py")
 CALLABLE = {"lambda", "closure", "rec", "cinst", "ccls_inst", "icinst", "icls_inst"}
-STATEFUL = {"closure", "cinst", "inst", "ccls_inst", "cls_inst", "icinst", "icls_inst"}
+STATEFUL = {"closure", "cinst", "inst", "ccls_inst", "cls_inst", "icinst", "icls_inst", "sinst", "bufinst"}
 
 
 def proj(h):
@@ -112,7 +112,7 @@ def run(ctx):
     ctx.rule = ("one replay per maximal path of the exhaustive state graph of Wrapper.tla plus one per transition not on such a path; "
                 "distinct = distinct histories; non-trivial = contains a plain-pickle round trip")
     ctx.assumptions += ["object kinds: lambda, closure with nonlocal state, recursive nested function, callable / non-callable instance, "
-                        "classes with a constructor argument; 'any object cloudpickle can serialise' is covered for these kinds only",
+                        "classes with a constructor argument, an instance of a class with __slots__, an instance holding a PickleBuffer; plain-pickle protocols as listed in the cfg; 'any object cloudpickle can serialise' is covered for these kinds only",
                         "objects live in the child's __main__ so that plain pickle cannot serialise them"]
 
 
